@@ -109,8 +109,10 @@ def kf_tree_known(f):
 
 
 def run(ctx):
-    e = engine(ctx, modules=("contracts.report", "contracts.cli", "contracts.covered"))
+    e = engine(ctx, modules=("contracts.report", "contracts.cli", "contracts.annotate", "contracts.covered"))
     ctx.verify(e, "reuse.covered_files.is_path_ignored", replay=replay_name)
+    # `annotate --recursive` examines exactly the covered files below the named directories (contract shared with C15)
+    ctx.verify(e, "reuse.cli.annotate.all_paths")
     ctx.verify(e, "reuse.vcs.VCSStrategyGit.is_submodule")
     ctx.verify(e, "reuse.vcs.VCSStrategyGit.is_ignored")
     assumed_contracts(ctx, e, "C03")
